@@ -452,6 +452,17 @@ func c18LockerFlow(t *testing.T, tr *Trace, rng *Rng, a *c18App) {
 					}
 				}
 				q.op("lsr", longGap(), zero, rateOf())
+				if rng.Chance(12) {
+					// error paths with the locker still flagged: a trigger / a rate update at an earlier block time (the chain's clock
+					// never runs backwards): CalculationOfRewards fails, the message is rejected, the sweep returns silently
+					if rng.Chance(50) {
+						q.opAt("calc", q.now-int64(1+rng.Intn(1000)), q.h+1, zero, sdk.ZeroDec())
+					} else {
+						q.opAt("lsr", q.now-int64(1+rng.Intn(1000)), q.h+1, zero, newRate())
+					}
+					q.h++
+					tr.Count("la:clock_back_flagged")
+				}
 				if rng.Chance(60) {
 					q.opAt("calc", q.now, q.h+1, zero, sdk.ZeroDec())
 					q.h++
@@ -506,8 +517,13 @@ func c18LockerFlow(t *testing.T, tr *Trace, rng *Rng, a *c18App) {
 					q.op("wlon", gap(), zero, sdk.ZeroDec())
 				}
 			case p < 96:
-				// the clock never runs backwards on chain; exercised as the error path (message rejected, nothing written)
-				q.opAt("calc", q.now-int64(1+rng.Intn(1000)), q.h+1, zero, sdk.ZeroDec())
+				// the clock never runs backwards on chain; exercised as the error path (message rejected, nothing written; the sweep
+				// of a rate update returns silently)
+				if rng.Chance(70) {
+					q.opAt("calc", q.now-int64(1+rng.Intn(1000)), q.h+1, zero, sdk.ZeroDec())
+				} else {
+					q.opAt("lsr", q.now-int64(1+rng.Intn(1000)), q.h+1, zero, newRate())
+				}
 				q.h++
 			default:
 				q.op("create", gap(), amount(), sdk.ZeroDec()) // a second locker for the same (app, asset): rejected
